@@ -237,4 +237,200 @@ theorem parse_total {cert : Cert} (hchk : checkCert env.tbl cert = true) (hs : S
     | mem => cases h2
 
 end
+
+/-! ### the parsing buffer never hits a limit that is at least the number of bytes it must hold -/
+
+/-- accounting invariant of the arena: everything charged is capacity, the data fits -/
+def BufOK (b : Buf) : Prop := b.usage = b.cap ∧ b.data.length ≤ b.cap
+
+theorem Buf.new_ok (max prealloc : Nat) : BufOK (Buf.new max prealloc) ∧ (Buf.new max prealloc).max = max := by
+  unfold Buf.new BufOK
+  simp
+
+theorem Buf.append_ok (b : Buf) (s : Bytes) (hb : BufOK b) (hm : b.data.length + s.length ≤ b.max) :
+    (b.append s).2 = true ∧ BufOK (b.append s).1 ∧ (b.append s).1.max = b.max := by
+  obtain ⟨h1, h2⟩ := hb
+  unfold Buf.append
+  by_cases hc : b.cap - b.data.length < s.length
+  · rw [if_pos hc]
+    have hinc : (b.increase (s.length + b.data.length - b.cap)).2 = true := by
+      simp only [Buf.increase, decide_eq_true_eq]
+      omega
+    simp only [hinc, if_true]
+    refine ⟨trivial, ⟨?_, ?_⟩, rfl⟩
+    · simp only [Buf.increase]; omega
+    · simp only [List.length_append]; omega
+  · rw [if_neg hc]
+    refine ⟨rfl, ⟨h1, ?_⟩, rfl⟩
+    simp only [List.length_append]
+    omega
+
+theorem Buf.initWith_ok (b : Buf) (s : Bytes) (hb : BufOK b) (hm : s.length ≤ b.max) :
+    (b.initWith s).2 = true ∧ BufOK (b.initWith s).1 ∧ (b.initWith s).1.max = b.max := by
+  unfold Buf.initWith
+  exact Buf.append_ok { b with data := [] } s ⟨hb.1, Nat.zero_le _⟩ (by simpa using hm)
+
+variable {γ : Type}
+
+/-- everything the no-failure argument needs between two calls -/
+def TInv (w : World γ) (cert : Cert) (s : Stream γ) : Prop :=
+  SInv2 w cert s ∧ s.disp.pendingAux = false ∧ s.parser.x.sim.strict = false ∧ BufOK s.buf
+
+section
+variable {w : World γ} {cert : Cert}
+
+theorem flushRemaining_pa {d d' : Disp γ} {inp : Bytes} {c : Nat} (h : d.flushRemaining inp c = .ok d') :
+    d'.pendingAux = d.pendingAux := by
+  unfold Disp.flushRemaining at h
+  (repeat' split at h) <;> first | (cases h; done) | (simp only [Except.ok.injEq] at h; subst h; rfl)
+
+theorem Stream.keepTail_total {s : Stream γ} {data chunk : Bytes} {consumed : Nat}
+    (hc : consumed ≤ chunk.length) (hbuf : s.hasBuffered = true → s.buf.data = chunk)
+    (hb : BufOK s.buf) (hm : data.length ≤ s.buf.max) :
+    (s.keepTail w data chunk consumed).2 = .ok () ∧ (s.keepTail w data chunk consumed).1.parser = s.parser ∧
+    BufOK (s.keepTail w data chunk consumed).1.buf ∧ (s.keepTail w data chunk consumed).1.buf.max = s.buf.max := by
+  unfold Stream.keepTail
+  by_cases hlt : consumed < chunk.length
+  · simp only [hlt, if_true]
+    by_cases hbf : s.hasBuffered = true
+    · simp only [hbf, if_true]
+      have : s.buf.shift consumed = some { s.buf with data := s.buf.data.drop consumed } := by
+        unfold Buf.shift; rw [hbuf hbf]; simp [hc]
+      rw [this]
+      refine ⟨rfl, rfl, ⟨hb.1, ?_⟩, rfl⟩
+      dsimp only
+      have := hb.2
+      simp only [List.length_drop]
+      omega
+    · have hb' : s.hasBuffered = false := by simpa using hbf
+      simp only [hb', Bool.false_eq_true, if_false]
+      obtain ⟨i1, i2, i3⟩ := Buf.initWith_ok s.buf (data.drop consumed) hb (by simp only [List.length_drop]; omega)
+      simp only [i1, if_true]
+      exact ⟨by first | rfl | trivial, by first | rfl | trivial, i2, i3⟩
+  · simp only [hlt, if_false]
+    exact ⟨by first | rfl | trivial, by first | rfl | trivial, hb, by first | rfl | trivial⟩
+
+/-- **One `write` over a never-failing controller**: it can only fail by a panic at a `U2` site. -/
+theorem Stream.write_total (hn : NeverFails w.ctl) (hw : Wf w.tbl) (hchk : checkCert w.tbl cert = true)
+    (s : Stream γ) (data : Bytes) (hs : TInv w cert s) (hbound : s.pending.length + data.length ≤ s.buf.max) :
+    (∀ e, (s.write w data).2 = .error e → ∃ st, e = .panic st ∧ U2 st) ∧
+    ((s.write w data).2 = .ok () → TInv w cert (s.write w data).1 ∧ (s.write w data).1.buf.max = s.buf.max) := by
+  obtain ⟨hs2, hpa, hstr, hbuf⟩ := hs
+  have hc := hn.clean
+  obtain ⟨_, w2⟩ := Stream.write_post2 hc hw hchk s data hs2
+  -- error class and the remaining fields, by walking through `write`
+  have key : (∀ e, (s.write w data).2 = .error e → ∃ st, e = .panic st ∧ U2 st) ∧
+      ((s.write w data).2 = .ok () → (s.write w data).1.disp.pendingAux = false ∧
+        (s.write w data).1.parser.x.sim.strict = false ∧ BufOK (s.write w data).1.buf ∧
+        (s.write w data).1.buf.max = s.buf.max) := by
+    unfold Stream.write
+    cases hcf : s.chunkFor w data with
+    | inl s' =>
+      exfalso
+      unfold Stream.chunkFor at hcf
+      by_cases hb : s.hasBuffered = true
+      · rw [if_pos hb] at hcf
+        have := (Buf.append_ok s.buf data hbuf (by simpa [Stream.pending, hb] using hbound)).1
+        dsimp only at hcf
+        rw [if_pos this] at hcf
+        cases hcf
+      · rw [if_neg hb] at hcf; cases hcf
+    | inr sc =>
+      obtain ⟨s1, chunk⟩ := sc
+      obtain ⟨c1, c2, c3, c4, c5⟩ := Stream.chunkFor_inr hcf
+      have hbuf1 : BufOK s1.buf ∧ s1.buf.max = s.buf.max := by
+        unfold Stream.chunkFor at hcf
+        by_cases hb : s.hasBuffered = true
+        · rw [if_pos hb] at hcf
+          obtain ⟨a1, a2, a3⟩ := Buf.append_ok s.buf data hbuf (by simpa [Stream.pending, hb] using hbound)
+          dsimp only at hcf
+          rw [if_pos a1] at hcf
+          simp only [Sum.inr.injEq, Prod.mk.injEq] at hcf
+          rw [← hcf.1]
+          exact ⟨a2, a3⟩
+        · rw [if_neg hb] at hcf
+          simp only [Sum.inr.injEq, Prod.mk.injEq] at hcf
+          rw [← hcf.1]
+          exact ⟨hbuf, rfl⟩
+      dsimp only
+      obtain ⟨⟨hrcs, hpinv⟩, hptok⟩ := hs2
+      have hlen : (if s.hasBuffered then s.buf.data.length else 0) ≤ chunk.length := by
+        rw [c1]
+        simp only [Stream.pending, List.length_append]
+        split <;> omega
+      have hp1 : PInv w.tbl chunk.length (fun d : Disp γ => d.rcs) s1.parser := by
+        rw [c2]; exact PInv_mono hpinv hlen
+      have hpost := parse_post (env := w.env) (inp := chunk) (dispOps_safe hc) hw false s1.parser hp1
+      obtain ⟨t1, t2⟩ := parse_total (env := w.env) (inp := chunk) (cert := cert) hchk (dispOps_safe hc) (dispOps_safe2 hc) hw
+        (dispOps_prov hn) false s1.parser hp1 (by rw [c2]; exact hptok)
+        (by rw [c2]; exact ⟨hpa, hstr⟩)
+      unfold ParsePost at hpost
+      cases hpr : (s1.parser.parse w.env chunk false).2 with
+      | error e =>
+        dsimp only
+        refine ⟨fun e' h => ?_, fun h => by cases h⟩
+        simp only [Except.error.injEq] at h
+        subst h
+        exact t1 e hpr
+      | ok consumed =>
+        rw [hpr] at hpost
+        obtain ⟨p1, p2, p3⟩ := hpost
+        dsimp only at p1 p2 p3 ⊢
+        obtain ⟨d, hfl, hd0⟩ := flushRemaining_ok (Stream.disp { s1 with parser := (s1.parser.parse w.env chunk false).1 })
+          chunk consumed p1 p2
+        rw [hfl]
+        dsimp only
+        have hdlen : data.length ≤ s1.buf.max := by rw [hbuf1.2]; omega
+        obtain ⟨k1, k2, k3, k4⟩ := Stream.keepTail_total (w := w)
+          (s := Stream.setDisp { s1 with parser := (s1.parser.parse w.env chunk false).1 } d)
+          (data := data) (chunk := chunk) (consumed := consumed) p2
+          (by intro hb; exact c5 (by simpa [Stream.setDisp, c3] using hb)) hbuf1.1 hdlen
+        refine ⟨fun e h => (by rw [k1] at h; cases h), fun _ => ?_⟩
+        have hpa' : d.pendingAux = false := by
+          rw [flushRemaining_pa hfl]
+          exact t2.1
+        refine ⟨?_, ?_, k3, by rw [k4]; exact hbuf1.2⟩
+        · simp only [Stream.disp, k2]
+          exact hpa'
+        · rw [k2]
+          exact t2.2
+  refine ⟨key.1, fun h => ⟨⟨w2 h, (key.2 h).1, (key.2 h).2.1, (key.2 h).2.2.1⟩, (key.2 h).2.2.2⟩⟩
+
+/-- **`end` over a never-failing controller**: it can only fail by a panic at a `U2` site. -/
+theorem Stream.end_total (hn : NeverFails w.ctl) (hw : Wf w.tbl) (hchk : checkCert w.tbl cert = true)
+    (s : Stream γ) (hs : TInv w cert s) :
+    ∀ e, (s.end w).2 = .error e → ∃ st, e = .panic st ∧ U2 st := by
+  obtain ⟨⟨⟨hrcs, hpinv⟩, hptok⟩, hpa, hstr, hbuf⟩ := hs
+  have hc := hn.clean
+  intro e he
+  unfold Stream.end at he
+  have hp1 : PInv w.tbl (if s.hasBuffered then s.buf.data else []).length (fun d : Disp γ => d.rcs) s.parser := by
+    split <;> rename_i hb <;> simpa [hb] using hpinv
+  have hpost := parse_post (env := w.env) (dispOps_safe hc) hw true s.parser hp1
+  obtain ⟨t1, t2⟩ := parse_total (env := w.env) (cert := cert) hchk (dispOps_safe hc) (dispOps_safe2 hc) hw
+    (dispOps_prov hn) true s.parser hp1 hptok ⟨hpa, hstr⟩
+  unfold ParsePost at hpost
+  dsimp only at he
+  cases hpr : (s.parser.parse w.env (if s.hasBuffered then s.buf.data else []) true).2 with
+  | error e' =>
+    rw [hpr] at he
+    dsimp only at he
+    simp only [Except.error.injEq] at he
+    subst he
+    exact t1 e' hpr
+  | ok consumed =>
+    rw [hpr] at hpost he
+    obtain ⟨p1, p2, _⟩ := hpost
+    dsimp only at he
+    exfalso
+    unfold Disp.finish at he
+    obtain ⟨d, hfl, hd0⟩ := flushRemaining_ok
+      (Stream.disp { s with parser := (s.parser.parse w.env (if s.hasBuffered then s.buf.data else []) true).1 })
+      (if s.hasBuffered then s.buf.data else []) _ (Nat.le_trans p1 p2) (Nat.le_refl _)
+    rw [hfl] at he
+    simp only [DRes.ofExcept, DRes.bind] at he
+    rw [hn.handleEnd] at he
+    cases he
+
+end
 end LolHtml.Model
